@@ -432,6 +432,22 @@ def d6_requested_mode(ctx):
                 if 'accessmode' in ps and ps.index('accessmode') < len(c.args):
                     a = c.args[ps.index('accessmode')]
             ok = a is not None and 'accessmode' in derived(f.node, a)
+            if not ok:
+                # built in another mode and switched afterwards: `<handle>.accessmode = accessmode` on every normal path
+                # between the construction and the return
+                holder = [st for st in own_nodes(f.node) if isinstance(st, ast.Assign) and st.value is c and
+                          len(st.targets) == 1 and isinstance(st.targets[0], ast.Name)]
+                if holder:
+                    h = holder[0].targets[0].id
+                    sets = [st for st in own_nodes(f.node) if isinstance(st, ast.Assign) and
+                            any(dotted(t) == f'{h}.accessmode' for t in st.targets) and
+                            'accessmode' in derived(f.node, st.value)]
+                    rets = [x for x in own_nodes(f.node) if isinstance(x, (ast.Return, ast.Yield)) and
+                            isinstance(x.value, ast.Name) and x.value.id == h]
+                    g = cfg_of(f)
+                    ok = bool(sets) and bool(rets) and all(
+                        not g.can_reach(g.node_for(holder[0]), g.node_for(r), avoid={g.node_for(s_) for s_ in sets},
+                                        skip_labels=('exc',)) for r in rets)
             ctx.decide(ok, 'R-FLOW', 'D6', f, c, f'requested-mode::{tg[0].qualname}',
                        f'{f.qualname} hands its accessmode to {tg[0].qualname}, whose result it returns',
                        detail=f'accessmode={norm(a) if a is not None else "<absent: callee default>"}: the '
